@@ -13,8 +13,7 @@ def states (i : Rl4co.Mtsp.Inst) (as : List Nat) : List Rl4co.Mtsp.State :=
 
 /-- `mtsp.episode n m | D (n+1)² row-major | actions`
 reply: mask/done trace, per-step `max_subtour_length` / `current_length` / `agent_idx`,
-`reward` (minmax, final state), `rnp` (minmax reward in the first finished state = no padding),
-`rsum` (sum mode, `raise` when the real call raises), Spec verdict and objectives, step bound. -/
+`reward` (minmax, final state), `rsum` (sum mode), Spec verdict and objectives, step bound. -/
 def episode (toks : List String) : Option String := do
   let [hd, dm, acts] ← parseSections toks | none
   let [n, m] := hd | none
@@ -24,11 +23,7 @@ def episode (toks : List String) : Option String := do
   let tr := episodeTrace Rl4co.Mtsp.env i as
   let sts := states i as
   let fin := sts.getLastD (Rl4co.Mtsp.reset i)
-  let firstDone := (sts.find? (·.done)).getD fin
-  let rsum := match Rl4co.Mtsp.rewardSum i as with
-    | some r => toString r
-    | none => "raise"
-  pure s!"{tr} mx={intsStr (sts.map (·.maxLen))} cl={intsStr (sts.map (·.curLen))} ag={natsStr (sts.map (·.agent))} reward={Rl4co.Mtsp.rewardMinmax fin} rnp={Rl4co.Mtsp.rewardMinmax firstDone} rsum={rsum} feas={bit (Rl4co.Spec.Mtsp.feasible i as)} obj={Rl4co.Spec.Mtsp.objMinmax i as} objsum={Rl4co.Spec.Mtsp.objSum i as} bound={i.n + i.m - 1}"
+  pure s!"{tr} mx={intsStr (sts.map (·.maxLen))} cl={intsStr (sts.map (·.curLen))} ag={natsStr (sts.map (·.agent))} reward={Rl4co.Mtsp.rewardMinmax fin} rsum={Rl4co.Mtsp.rewardSum i as} feas={bit (Rl4co.Spec.Mtsp.feasible i as)} obj={Rl4co.Spec.Mtsp.objMinmax i as} objsum={Rl4co.Spec.Mtsp.objSum i as} bound={i.n + i.m - 1}"
 
 def handlers : List (String × (List String → Option String)) :=
   [("mtsp.episode", episode)]
